@@ -46,8 +46,8 @@ def run(rep, tier, seed):
     # the octet kernels of INTEGER and OBJECT IDENTIFIER are translated from the source on every run; source_oid_roundtrip /
     # source_integer_roundtrip are about those translations, which are compared with the code here
     from harness import kernels
-    kernels.obligations(rep, ['toBytes', 'oidEncode', 'oidDecode', 'realBin', 'realDec'])
-    kernels.check(rep, drv, seed, 150 if tier == 'quick' else 4000, which=('toBytes', 'oidEncode', 'oidDecode', 'realBin', 'realDec'))
+    kernels.obligations(rep, ['toBytes', 'oidEncode', 'oidDecode', 'realBin', 'realDec', 'fromBytes', 'intDecode', 'wrapTags', 'decodeLength'])
+    kernels.check(rep, drv, seed, 150 if tier == 'quick' else 4000, which=('toBytes', 'oidEncode', 'oidDecode', 'realBin', 'realDec', 'intDecode', 'wrapTags', 'decodeLength'))
     # corpus first
     for ts, vs, dm, ch in CORPUS:
         t = gen_ty(ts)
